@@ -20,7 +20,8 @@ DRIVERS = ["tracker"]
 THEOREMS = ["C16_valid_script", "C16_bounded", "C16_bounded_refuted", "C16_update_total",
             "C16_update_inverted_panics", "C16_to_lines_total", "C16_line_char_roundtrip", "C16_roundtrip_refuted",
             "C16_merge_preserves_coverage", "C16_merge_keeps_markers", "C16_equal_keeps", "C16_equal_keeps_refuted",
-            "C16_new_is_authors", "C16_identity_tie_refuted", "C16_identity_marker_refuted", "C16_nonvacuous"]
+            "C16_new_is_authors", "C16_identity_tie_refuted", "C16_identity_marker_refuted", "C16_identity_fixpoint",
+            "C16_nonvacuous"]
 CLAIM = {
     "text": "Machine-checked proof (Coq 8.16.1) over an executable Gallina model of the tracker's bookkeeping "
             "(transform_attributions, merge_attributions, the line/char conversions) with the diff and the move "
@@ -549,7 +550,6 @@ def run(ctx):
     quick = ctx.tier == "quick"
     obligations, violations, known_seen = [], [], set()
     mism = []
-    n_known = 0
     distinct = set()
     samples = []
     dist = {"pair_kinds": {}, "attr_kinds": {}, "reformat_kinds": {}, "rt_kinds": {}}
@@ -624,104 +624,170 @@ def run(ctx):
         cases.append({"id": f"rf{i}", "old": o, "new": n, "attrs": at, "author": r.pick(["ai_9", HUMAN]), "ts": 100,
                       "kind": "reformat:" + kind, "akind": "tiling", "so": so, "sn": sn, "line_auth": line_auth})
         bump(dist["reformat_kinds"], kind)
-    for c in cases:
-        c["old_b"] = list(c["old"].encode())
-        c["new_b"] = list(c["new"].encode())
-        c["body"] = " ".join(C.sx(x) for x in [c["old_b"], c["new_b"], enc_attrs(c["attrs"]), C.cps(c["author"]), c["ts"]])
-    impl = C.run_cases(C.VHARNESS, "c16-update", [(c["id"], c["body"]) for c in cases], shards=C.NCPU)
-    model_in = []
-    for c in cases:
-        a = impl.get(c["id"])
-        if a is None or a == "panic":
-            violations.append((f"harness died / panicked outside catch_unwind on {c['id']}", {"case": c["body"], "impl": a}))
-            continue
-        # the facts are the first three s-expressions of the implementation's line
-        k = a.find(" (tr ")
-        c["facts_txt"] = a[:k]
-        model_in.append((c["id"], c["body"] + " " + c["facts_txt"]))
-    model = C.run_cases(drv, "c16-update", model_in, shards=C.NCPU) if ctx.model_ok else {}
+    # thresholds of compute_diffs / should_skip_move_detection, hit deliberately (thorough tier only:
+    # the extracted model is quadratic in the file size)
+    if not quick:
+        def big_lines(n, width):
+            return [("line %d " % i) + r.pick(POOL) + " pad" * width for i in range(n)]
+
+        def blocks(text, k):
+            b = list(text.encode())
+            sp = line_spans(b)
+            out_, step = [], max(1, len(sp) // k)
+            for j in range(0, len(sp), step):
+                out_.append((sp[j][0], sp[min(len(sp), j + step) - 1][1], r.pick(["ai_1", "ai_2", HUMAN]), r.range(1, 50)))
+            return out_
+        bl = big_lines(1100, 14)                                  # ~80 kB, > 256 token ops: move detection skipped
+        nl = [l.replace("line", "LINE") + " é" if 100 <= i < 420 else l for i, l in enumerate(bl)]
+        bigs = [("ops>256,>=64kB", bl, nl)]
+        bl = big_lines(1000, 14)                                  # ~70 kB, a moved block, few ops: moves on a big file
+        nl = bl[:200] + bl[230:600] + bl[200:230] + bl[600:]
+        bigs.append(("moved block,>=64kB", bl, nl))
+        bl = big_lines(700, 20)                                   # one hunk of 300 lines / > 32 kB: line-aligned fast path
+        nl = bl[:150] + ["fresh %d é " % i + "q" * 110 for i in range(300)] + bl[450:]
+        bigs.append(("fast path >=32kB,>=256 lines", bl, nl))
+        bl = big_lines(500, 6)                                    # ~25 kB, 300 one-token edits: > 256 ops on a small file
+        nl = [l + " ;" if i % 5 != 0 and i < 380 else l for i, l in enumerate(bl)]
+        bigs.append(("ops>256,<64kB", bl, nl))
+        for j, (kd, a_, b_) in enumerate(bigs):
+            o_, n_ = "".join(l + "\n" for l in a_), "".join(l + "\n" for l in b_)
+            cases.append({"id": f"big{j}", "old": o_, "new": n_, "attrs": blocks(o_, 30), "author": "ai_9", "ts": 100,
+                          "kind": "big:" + kd, "akind": "blocks"})
+            bump(dist["pair_kinds"], "big")
 
     mon_bad = []
-    n_k1 = n_wf = n_fit_bad_outside_k1 = 0
-    n_moves = 0
+    known_hist = {}
+    cnt = {"k1": 0, "fit_bad": 0, "moves": 0, "known": 0}
     hit = {"wf_diff": 0, "moves_ok": 0, "moves_fit": 0, "moves_same_len": 0, "priors_ordered": 0}
+    all_impl = {}
+
+    def process(batch):
+        for c in batch:
+            c["old_b"] = list(c["old"].encode())
+            c["new_b"] = list(c["new"].encode())
+            c["body"] = " ".join(C.sx(x) for x in [c["old_b"], c["new_b"], enc_attrs(c["attrs"]), C.cps(c["author"]), c["ts"]])
+        impl = C.run_cases(C.VHARNESS, "c16-update", [(c["id"], c["body"]) for c in batch], shards=C.NCPU)
+        model_in = []
+        for c in batch:
+            a = impl.get(c["id"])
+            if a is None or a == "panic":
+                violations.append((f"harness died / panicked outside catch_unwind on {c['id']}", {"case": c["body"], "impl": a}))
+                continue
+            # the facts are the first three s-expressions of the implementation's line
+            k = a.find(" (tr ")
+            c["facts_txt"] = a[:k]
+            model_in.append((c["id"], c["body"] + " " + c["facts_txt"]))
+        model = C.run_cases(drv, "c16-update", model_in, shards=C.NCPU) if ctx.model_ok else {}
+
+        for c in batch:
+            a = impl.get(c["id"])
+            if a is None or a == "panic":
+                continue
+            f = fields(a)
+            segs = f.get("segs", [])
+            nontrivial = bool(c["attrs"]) and any(s[0] != 0 for s in segs if isinstance(s, list))
+            if nontrivial:
+                distinct.add(c["body"])
+            findings = []
+            oracle_update(c, f, findings)
+            moves = f.get("moves", [])
+            cnt["moves"] += 1 if moves else 0
+            k1 = k1_class(c["old_b"], c["new_b"], segs, [tuple(m) for m in moves])
+            cnt["k1"] += k1
+            # reformat oracle
+            if c["kind"].startswith("reformat") and f.get("lines") and f["lines"][0] != "panic":
+                got = lines_per_line(dec_lattrs(f["lines"][0]))
+                old_struct = [l for l in c["so"]]
+                # author of each word occurrence, in sequence order
+                wa = []
+                for lw, (x, t) in zip(old_struct, c["line_auth"]):
+                    wa += [(x, t)] * len(lw)
+                pos = 0
+                subst_any = bool(f.get("subst"))
+                for ln_no, lw in enumerate(c["sn"], 1):
+                    if not lw:
+                        continue
+                    auths = wa[pos:pos + len(lw)]
+                    pos += len(lw)
+                    g = got.get(ln_no, HUMAN)
+                    allowed = set(x for x, _ in auths)
+                    if g not in allowed:
+                        cls = K5 if subst_any else None
+                        findings.append((f"whitespace-only reformat: line {ln_no} of new ({' '.join(lw)!r}) had authors "
+                                         f"{sorted(allowed)} and is now {g!r}", cls))
+                        break
+            for what, cls in findings:
+                if cls is not None:
+                    cnt["known"] += 1
+                    known_seen.add(cls)
+                    bump(known_hist, cls[:6] + " | " + what.split(":")[0][:40] + " | " + ("chained" if c["kind"].startswith("chained") else "generated"))
+                else:
+                    violations.append((f"{c['id']} [{c['kind']} / {c['akind']}]: {what}; old={c['old']!r} new={c['new']!r} "
+                                       f"attrs={c['attrs']} author={c['author']} ts={c['ts']}",
+                                       {"kind": "update", "old": c["old"], "new": c["new"], "attrs": c["attrs"],
+                                        "author": c["author"], "ts": c["ts"], "what": what, "impl": a[:2000]}))
+            # monitors
+            mb = monitor_facts(c, f)
+            if mb:
+                mon_bad.append(f"{c['id']} old={c['old']!r} new={c['new']!r}: {mb[0]}")
+            # correspondence
+            if ctx.model_ok:
+                b = model.get(c["id"])
+                if b is None:
+                    mism.append(f"{c['id']}: model driver gave no answer")
+                    continue
+                g = fields(b)
+                for key in ("tr", "out", "lines", "lines0"):
+                    if f.get(key) != g.get(key):
+                        mism.append(f"{c['id']} [{c['kind']}/{c['akind']}] {key}: impl {C.sx(f.get(key))[:160]} model {C.sx(g.get(key))[:160]} "
+                                    f"old={c['old']!r} new={c['new']!r} attrs={c['attrs']}")
+                        break
+                for key, name in (("wf", "wf_diff"), ("mok", "moves_ok"), ("mfit", "moves_fit"), ("msame", "moves_same_len"), ("ord", "priors_ordered")):
+                    if g.get(key) == [1]:
+                        hit[name] += 1
+                if g.get("wf") != [1] or g.get("mok") != [1]:
+                    mon_bad.append(f"{c['id']}: model-side wf_diff={g.get('wf')} moves_ok={g.get('mok')} on the real facts")
+                if g.get("mfit") != [1] and not k1:
+                    cnt["fit_bad"] += 1
+                if g.get("mfit") == [1] and g.get("ord") == [1]:
+                    # instances of C16_update_total / C16_bounded in the extracted model
+                    mo = g.get("out")
+                    if mo is None or mo[0] == "panic" or any(not (x[0] <= x[1] <= len(c["new_b"])) for x in mo[0]):
+                        mism.append(f"{c['id']}: theorem instance C16_update_total / C16_bounded fails in the extracted model")
+            if len(samples) < 4 and nontrivial and len(c["old"]) < 80:
+                samples.append({"case": "update", "old": c["old"], "new": c["new"], "attrs": c["attrs"], "author": c["author"],
+                                "ts": c["ts"], "impl": a[:600], "model": (model.get(c["id"]) or "")[:400]})
+        all_impl.update(impl)
+
+    process(cases)
+    # second round: the output of a real update is the prior of an update with the identical text
+    # (the realistic flow), and of one further edit
+    chained = []
+    n_ch = 500 if quick else 15000
     for c in cases:
-        a = impl.get(c["id"])
-        if a is None or a == "panic":
+        if len(chained) >= n_ch:
+            break
+        a = all_impl.get(c["id"])
+        if not a or a == "panic" or c["kind"] == "corpus":
             continue
         f = fields(a)
-        segs = f.get("segs", [])
-        nontrivial = bool(c["attrs"]) and any(s[0] != 0 for s in segs if isinstance(s, list))
-        if nontrivial:
-            distinct.add(c["body"])
-        findings = []
-        oracle_update(c, f, findings)
-        moves = f.get("moves", [])
-        n_moves += 1 if moves else 0
-        k1 = k1_class(c["old_b"], c["new_b"], segs, [tuple(m) for m in moves])
-        n_k1 += k1
-        # reformat oracle
-        if c["kind"].startswith("reformat") and f.get("lines") and f["lines"][0] != "panic":
-            got = lines_per_line(dec_lattrs(f["lines"][0]))
-            old_struct = [l for l in c["so"]]
-            # author of each word occurrence, in sequence order
-            wa = []
-            for lw, (x, t) in zip(old_struct, c["line_auth"]):
-                wa += [(x, t)] * len(lw)
-            pos = 0
-            subst_any = bool(f.get("subst"))
-            for ln_no, lw in enumerate(c["sn"], 1):
-                if not lw:
-                    continue
-                auths = wa[pos:pos + len(lw)]
-                pos += len(lw)
-                g = got.get(ln_no, HUMAN)
-                allowed = set(x for x, _ in auths)
-                if g not in allowed:
-                    cls = K5 if subst_any else None
-                    findings.append((f"whitespace-only reformat: line {ln_no} of new ({' '.join(lw)!r}) had authors "
-                                     f"{sorted(allowed)} and is now {g!r}", cls))
-                    break
-        for what, cls in findings:
-            if cls is not None:
-                n_known += 1
-                known_seen.add(cls)
-            else:
-                violations.append((f"{c['id']} [{c['kind']} / {c['akind']}]: {what}; old={c['old']!r} new={c['new']!r} "
-                                   f"attrs={c['attrs']} author={c['author']} ts={c['ts']}",
-                                   {"kind": "update", "old": c["old"], "new": c["new"], "attrs": c["attrs"],
-                                    "author": c["author"], "ts": c["ts"], "what": what, "impl": a[:2000]}))
-        # monitors
-        mb = monitor_facts(c, f)
-        if mb:
-            mon_bad.append(f"{c['id']} old={c['old']!r} new={c['new']!r}: {mb[0]}")
-        # correspondence
-        if ctx.model_ok:
-            b = model.get(c["id"])
-            if b is None:
-                mism.append(f"{c['id']}: model driver gave no answer")
-                continue
-            g = fields(b)
-            for key in ("tr", "out", "lines", "lines0"):
-                if f.get(key) != g.get(key):
-                    mism.append(f"{c['id']} [{c['kind']}/{c['akind']}] {key}: impl {C.sx(f.get(key))[:160]} model {C.sx(g.get(key))[:160]} "
-                                f"old={c['old']!r} new={c['new']!r} attrs={c['attrs']}")
-                    break
-            for key, name in (("wf", "wf_diff"), ("mok", "moves_ok"), ("mfit", "moves_fit"), ("msame", "moves_same_len"), ("ord", "priors_ordered")):
-                if g.get(key) == [1]:
-                    hit[name] += 1
-            if g.get("wf") != [1] or g.get("mok") != [1]:
-                mon_bad.append(f"{c['id']}: model-side wf_diff={g.get('wf')} moves_ok={g.get('mok')} on the real facts")
-            if g.get("mfit") != [1] and not k1:
-                n_fit_bad_outside_k1 += 1
-            if g.get("mfit") == [1] and g.get("ord") == [1]:
-                # instances of C16_update_total / C16_bounded in the extracted model
-                mo = g.get("out")
-                if mo is None or mo[0] == "panic" or any(not (x[0] <= x[1] <= len(c["new_b"])) for x in mo[0]):
-                    mism.append(f"{c['id']}: theorem instance C16_update_total / C16_bounded fails in the extracted model")
-        if len(samples) < 4 and nontrivial and len(c["old"]) < 80:
-            samples.append({"case": "update", "old": c["old"], "new": c["new"], "attrs": c["attrs"], "author": c["author"],
-                            "ts": c["ts"], "impl": a[:600], "model": (model.get(c["id"]) or "")[:400]})
+        if not f.get("out") or f["out"][0] in ("panic", "err"):
+            continue
+        pri = dec_attrs(f["out"][0])
+        if any(not (x[0] <= x[1] <= len(c["new_b"])) for x in pri):
+            continue                        # out-of-bounds output (class K1): not a legal prior of the next round
+        if r.chance(2, 3):
+            chained.append({"id": "ch" + c["id"], "old": c["new"], "new": c["new"], "attrs": pri, "author": "ai_7",
+                            "ts": 200, "kind": "chained-identical", "akind": "update-output"})
+        else:
+            ls2, kd = edit_lines(r, c["new"].split("\n"))
+            chained.append({"id": "ch" + c["id"], "old": c["new"], "new": "\n".join(ls2), "attrs": pri, "author": "ai_7",
+                            "ts": 200, "kind": "chained-" + kd, "akind": "update-output"})
+        bump(dist["pair_kinds"], chained[-1]["kind"].split("-")[0])
+    process(chained)
+    cases = cases + chained
+    n_known = cnt["known"]
+    n_k1, n_moves, n_fit_bad_outside_k1 = cnt["k1"], cnt["moves"], cnt["fit_bad"]
     obligations.append(("monitor:wf_diff + moves_ok on the real diff facts (script re-concatenates, boundaries, substantive "
                         "ranges inside, Insert with non-whitespace is substantive, moves inside their segments)",
                         not mon_bad, "; ".join(mon_bad[:3])))
@@ -903,6 +969,7 @@ def run(ctx):
             "synthetic_fact_sets_with_moves_ok": f"{n_tok}/{len(tcases)}",
             "synthetic_panics_in_impl": n_tpanic,
             "oracle_failures_in_known_classes": n_known,
+            "oracle_failures_by_class": known_hist,
             "correspondence_mismatches": len(mism),
         },
     }
